@@ -491,12 +491,12 @@ def clamp(t, neg=BAD):
 
 def c01_check_tree(case, impl):
     if is_exc(impl):
-        return [case["tag"], case["jds"], case["sizes"], case.get("mis", []), [], case["jds"], []]
+        return [case["tag"], case["jds"], case["sizes"], case.get("mis", []), [], case["jds"], [], []]
     calls = [[j, [v if isinstance(v, int) and v >= 0 else BAD for v in args]] for j, args in impl["calls"]]
     jo = impl["jds_out"]
     ok_shape = isinstance(jo, list) and all(isinstance(r, list) and all(isinstance(x, int) and x >= 0 for x in r) for r in jo)
     return clamp([case["tag"], case["jds"], case["sizes"], case.get("mis", []), calls,
-                  jo if ok_shape else [[BAD]], verts_seen(case, impl)])
+                  jo if ok_shape else [[BAD]], verts_seen(case, impl), results_tree(impl)])
 
 
 def results_tree(impl):
